@@ -3,7 +3,7 @@
 From Coq Require Import Reals ZArith List Floats.
 From Celer Require Import Base.Num Base.NumR Base.NumF Base.Stream Base.Vec3
   C15.Samplers C15.SamplersProofs C15.SamplersWitness C15.SamplersLaws C15.Eloss C15.ElossProofs
-  C15.DensityLaws C15.Canonical C15.CanonicalProofs.
+  C15.DensityLaws C15.Canonical C15.CanonicalProofs C15.ElossDelta C15.UrbanSupport.
 Import ListNotations.
 Local Open Scope R_scope.
 
@@ -375,3 +375,38 @@ Theorem C15_canonical_unclamped_reaches_one :
   canonical_generic true 32 [2 ^ 32 - 1; 2 ^ 32 - 1]%Z = Some ((2 ^ 64 - 2 ^ 11)%Z, 64%Z, []).
 Proof. exact canonical_unclamped_reaches_one. Qed.
 Print Assumptions C15_canonical_unclamped_reaches_one.
+
+(** ** Part 7: support of EnergyLossUrbanDistribution (every branch as coded) and the Delta model *)
+
+(** sample_fast_urban: truncated Gaussian or uniform, always in [0, 2 mean] *)
+Theorem C15_fast_urban_support : forall mean sd s x s', 0 <= mean -> Forall canonical s ->
+  fast_urban (T:=R) mean sd s = Some (x, s') -> 0 <= x <= 2 * mean /\ suffix_of s s'.
+Proof. exact fast_urban_nonneg. Qed.
+Print Assumptions C15_fast_urban_support.
+
+(** state-level: scaling * (excitation + ionisation) >= 0 *)
+Theorem C15_eloss_urban_nonneg : forall (u : urban_state (T:=R)) s x s',
+  0 <= ub_scaling u -> 0 <= ub_be0 u -> 0 <= ub_be1 u -> 1 / 100000 < ub_max_energy u ->
+  Forall canonical s -> eloss_urban u s = Some (x, s') -> 0 <= x.
+Proof. exact eloss_urban_nonneg. Qed.
+Print Assumptions C15_eloss_urban_nonneg.
+
+(** the constructor establishes those facts in each of its branches *)
+Theorem C15_urban_construct_state_ok : forall (m : urban_mat (T:=R)) mean Emax tmb bsq,
+  0 < Emax -> 0 <= um_be0 m -> 0 <= um_be1 m ->
+  let st := fst (urban_construct m mean Emax tmb bsq) in
+  1 <= ub_scaling st /\ 0 <= ub_be0 st /\ 0 <= ub_be1 st /\ ub_max_energy st = Emax.
+Proof. exact urban_construct_state_ok. Qed.
+Print Assumptions C15_urban_construct_state_ok.
+
+(** every parameter set the constructor accepts, every canonical stream: sampled loss >= 0 *)
+Theorem C15_eloss_urban_support : forall (m : urban_mat (T:=R)) mean Emax tmb bsq s x s',
+  1 / 100000 < Emax -> 0 <= um_be0 m -> 0 <= um_be1 m -> Forall canonical s ->
+  eloss_urban (fst (urban_construct m mean Emax tmb bsq)) s = Some (x, s') -> 0 <= x.
+Proof. exact eloss_urban_support. Qed.
+Print Assumptions C15_eloss_urban_support.
+
+(** EnergyLossDeltaDistribution: the mean loss, no draw *)
+Theorem C15_eloss_delta_spec : forall (mean : R) s, eloss_delta (T:=R) mean s = Some (mean, s).
+Proof. exact eloss_delta_spec. Qed.
+Print Assumptions C15_eloss_delta_spec.
